@@ -5,6 +5,7 @@
 package ergo
 
 import (
+	"encoding/hex"
 	"encoding/json"
 	"fmt"
 	"os"
@@ -82,7 +83,10 @@ func zzTimeOf(v string) time.Time {
 
 func zzTime(name string) time.Time { return zzTimeOf(zzLoad().Values[name]) }
 
-func zzBytes(name string, max int) string { return zzLoad().Values[name] }
+func zzBytes(name string, max int) string {
+	b, _ := hex.DecodeString(zzLoad().Values[name+".hex"])
+	return string(b)
+}
 
 // zzHavoc fills *ptr with an arbitrary value of its type. spec: "N;Field=K;..." gives the
 // number of map entries / slice elements (default N, per struct-field overrides).
